@@ -9,17 +9,17 @@ CHECKS = [
      "technique": "bounded-exhaustive exploration of terms x points x routes against an enclosure reference model",
      "design_ref": "DESIGN.md 3 C01, 2.3",
      "text": "Every expression tree of the stated alphabets up to the stated node count is built through the public constructors and evaluated at every grid point through every evaluation route (Point, bare number, extra coordinates, int/float spelling, shared sub-objects); each result must lie in the reference enclosure and be bit-exact where IEEE arithmetic is exact. Exhaustive within the bounds, so it covers the n, base, arity and nesting combinations the tests never reach.",
-     "note": SWEEP_NOTE + " F5 (inexact cbrt / x**(1/n) / log(x, base) on exact powers) is a listed known finding."},
+     "note": SWEEP_NOTE + " F5 (inexact cbrt / x**(1/n) / log(x, base) on exact powers) is a listed known finding, identified by call site and by the committed list of failing inputs (known_inputs/)."},
     {"id": "C02", "engine": "SWEEP",
      "technique": "bounded-exhaustive exploration of terms x boundary points against the reference domain predicate",
      "design_ref": "DESIGN.md 3 C02, 2.3",
-     "text": "Same exhaustive product as C01 plus skeletons that place undefined sub-terms under every parent kind; DomainError must be raised iff the reference finds a sub-term outside its strict domain (decided pairs only), and on the domain the result is a finite real.",
+     "text": "Same exhaustive product as C01 plus skeletons that place undefined sub-terms under every parent kind; DomainError must be raised iff the reference finds a sub-term outside its strict domain (decided pairs only), and on the domain the result is a finite real; where only the result's magnitude leaves the double range the outcome may be anything but DomainError; the two numeric derivative queries (reverse sweep, late forward rule) are held to the same DomainError-iff-outside rule.",
      "note": SWEEP_NOTE},
 ]
 
 DERIV_NOTE = SWEEP_NOTE + (" Reference derivative: difference quotient of a 640-bit evaluator (h = 2^-200); tolerance 4 x "
               "interval-AD conditioning width + 2^-35 (S + |d|); ill-conditioned triples are counted and skipped.")
-F3_NOTE = " F3 (unsound even-root-of-even-power rewrite, pinned by the test suite) is a listed known finding, attributed by counterfactual."
+F3_NOTE = " F3 (unsound even-root-of-even-power rewrite, pinned by the test suite) is a listed known finding, attributed by counterfactual and by the committed list of inputs that fail on the pinned tree (known_inputs/); a discrepancy at that call site on any other input is a VIOLATION."
 
 CHECKS += [
     {"id": "C03", "engine": "SWEEP",
